@@ -1,3 +1,3 @@
 From Verif Require Import Extract.C15.
 Require Import ExtrOcamlBasic.
-Extraction "c15_model.ml" c15_check_path c15_is_clean c15_fold c15_split_cue_mod c15_check_files c15_check_zip c15_create c15_unzip c15_files_verdicts c15_zip_verdicts.
+Extraction "c15_model.ml" c15_check_path c15_is_clean c15_fold c15_split_cue_mod c15_check_files c15_check_zip c15_create c15_unzip c15_files_verdicts c15_zip_verdicts c15_check_dir c15_create_from_dir.
